@@ -10,7 +10,10 @@ pub fn run(seed: u64, tier: &str, out: &mut Out) {
     let mut rng = Rng::new(seed);
     let n = if tier == "thorough" { 100_000 } else { 4_000 };
     let texts = ["", "m", "\t", "m\t1\t", "\t\tp", "a b", "x\ty"];
-    for _ in 0..n {
+    for case_no in 0..n {
+        // a draw that panics (and poisons the bar) is a failure of that case, not of the harness
+        let desc = std::cell::RefCell::new(String::new());
+        let r = std::panic::catch_unwind(std::panic::AssertUnwindSafe(|| {
         let k = rng.range(1, 12);
         let rec = Recorder::new(60_000, 200, false);   // tall enough for a line of several 65536-column tabs (nothing is emulated here)
         let pb = ProgressBar::with_draw_target(Some(10), ProgressDrawTarget::term_like(Box::new(rec.clone())));
@@ -40,6 +43,7 @@ pub fn run(seed: u64, tier: &str, out: &mut Out) {
         }
         if !has_style { case += " ; style 0"; set_style(&pb, 0, rng.below(3)); key0 = KEYS[0].to_string(); }
         { let mut st = rec.st.lock().unwrap(); st.ops.clear(); }
+        *desc.borrow_mut() = case.clone();
         pb.tick();
         let st = rec.st.lock().unwrap();
         let line = st.ops.iter().find_map(|o| if let Op::Str(s) = o { if !s.trim().is_empty() { Some(s.clone()) } else { None } } else { None }).unwrap_or_default();
@@ -53,6 +57,8 @@ pub fn run(seed: u64, tier: &str, out: &mut Out) {
             else if line.trim_end() != want_line.trim_end() { format!("FAIL line-not-expanded tab width {tw}: line={line:?} wanted {want_line:?}") } else { "ok".into() };
         std::mem::forget(pb);
         out.emit(&case, &format!("line={} msg={} prefix={} ORACLE {verdict}", show(&line), show(&m), show(&p)));
+        }));
+        if r.is_err() { out.emit(&format!("NOMODEL PANIC C16 case {case_no}"), &format!(" ORACLE FAIL panic while drawing after {}", desc.borrow())); }
     }
 }
 
